@@ -28,6 +28,31 @@ CLAIMED = {
  'C17': world(W % ('Iterator', '"iter"', 'two iterators with every move and ToSlot(k) interleaved with mutations of the source; iterators of all kinds in random histories.'), 'DESIGN.md 4/C17'),
  'C18': world(W % ('aliasing', '"alias", "aliasA"', 'caller-owned Go arrays / maps are first-class objects of the world that the client pokes; any shared storage is a frame violation.'), 'DESIGN.md 4/C18'),
 }
+QNOTE = ('Trusted: TLC, the Go runtime implementing channels as modelled (FIFO wait queues, hand-off, close broadcast), the verif hooks being '
+         'placed at every synchronisation operation of queue.go, the Go race detector for the data-race clause. Exhaustive for the '
+         'listed small client programs / configurations; larger ones are sampled by free-running runs.')
+
+def queue(text, ref, tech):
+    return dict(engine='queue', level=dict(category='model_checking', text=text, design_ref=ref), note=QNOTE, technique=tech)
+
+CLAIMED.update({
+ 'C04': queue('TLC explores every interleaving (at the granularity of lock / send / receive / close) of small client programs on '
+              'QueueImpl.tla and checks its invariants; an edge-covering set of those behaviours is forced onto real goroutines '
+              'through yield hooks with the real state compared after every step; every invoke/return history recorded from the real '
+              'queue (forced schedules and free-running stress, also under the race detector) is judged by TLC against the '
+              'linearizable bounded FIFO of QueueLin.tla.', 'DESIGN.md 4/C04',
+              'TLA+ impl-level model (QueueImpl.tla) checked by TLC, schedule replay on real goroutines via hooks, TLC linearizability trace validation against QueueLin.tla'),
+ 'C05': queue('Same models and replays as C04; judged here: TLC checks NoStuck and Termination (weak fairness) on every program, every '
+              'forced schedule must run to completion, behaviours ending in a stuck model state are replayed and the real goroutines '
+              'examined, free-running well-formed programs must terminate with every value delivered once, and the constructors are '
+              'replayed from the World model with 0..33 initial values.', 'DESIGN.md 4/C05',
+              'TLC deadlock/liveness checking of QueueImpl.tla + forced replay of stuck behaviours + termination of recorded runs'),
+ 'C06': queue('TLC explores every call-level interleaving of feeder, helper goroutines and readers on Pipes.tla (order, round robin, '
+              'closure, wait group, termination under weak fairness); an edge cover is forced onto the real Fork/Split/Join pipelines '
+              '(helpers adopted through the spawn hook) and every completed real run, forced or free-running (also under the race '
+              'detector), is judged by TLC against the stream relations of TracePipes.tla.', 'DESIGN.md 4/C06',
+              'TLA+ model of the helper loops (Pipes.tla) checked by TLC, schedule replay via hooks, TLC judgement of recorded runs (TracePipes.tla)'),
+})
 NOT_YET = 'check not built yet (work in progress; see DESIGN.md section 10)'
 
 hooks_commits = [l.split()[0] for l in subprocess.run(['git', '-C', '/repo', 'log', '--format=%h %s'], capture_output=True, text=True).stdout.splitlines() if ' verif-hook:' in l]
@@ -39,6 +64,9 @@ m = {
            'baseline_off_cmd': 'cd /repo/v4 && GOFLAGS=-mod=mod GOPROXY=off GOSUMDB=off GOTOOLCHAIN=local go test -count=1 ./...',
            'source_commits': hooks_commits, 'add_only': True},
  'engines': [
+   {'name': 'queue', 'path': 'spec/QueueImpl.tla spec/QueueLin.tla spec/TraceQueueLin.tla spec/Pipes.tla spec/TracePipes.tla lib/queueeng.py lib/queuechecks.py harness/qsched harness/qstress',
+    'serves_properties': [p for p, c in CLAIMED.items() if c['engine'] == 'queue'],
+    'kind_free_text': 'implementation-level TLA+ models of the queue and its pipelines; TLC schedules forced onto real goroutines; TLC linearizability validation of recorded histories'},
    {'name': 'world', 'path': 'spec/World.tla spec/MCWorld.tla spec/TraceWorld.tla lib/worldeng.py harness/world',
     'serves_properties': [p for p, c in CLAIMED.items() if c['engine'] == 'world'],
     'kind_free_text': 'sequential TLA+ specification of all collection classes; TLC edge export -> replay on real code; TLC trace validation'},
